@@ -14,6 +14,8 @@ def corpus(tier, seed):
     q = tier == "quick"
     cands = ["A", "B", "C"]
     inputs = EL.family_inputs(rng, "dictators", cands, 2, D.INT_W(2), per_bag=1 if q else None, max_paths=600)
+    if q:
+        inputs = rng.sample(inputs, min(len(inputs), 1300))
     inputs += EL.family_inputs(rng, "dictators", cands, 2, D.HALF_W + [[1, 3]], per_bag=1 if q else 3, max_paths=600)
     inputs += EL.family_sampled(rng, "dictators", 120 if q else 4000, (4, 4), 4, max_paths=400, wmax=3)
     # random tiebreaks of the other rules: uniform over the orders of the tied set
